@@ -5,11 +5,12 @@ import (
 )
 
 type ClientTemplate struct {
+	BasePath   string
 	Operations []ClientOperationTemplate
 }
 
-func NewClient(s *specification.Spec, ops []*Operation) ClientTemplate {
-	var c ClientTemplate
+func NewClient(s *specification.Spec, ops []*Operation, basePath string) ClientTemplate {
+	c := ClientTemplate{BasePath: basePath}
 	c.Operations = make([]ClientOperationTemplate, 0, len(ops))
 	for _, o := range ops {
 		co := NewClientOperation(o)
